@@ -37,6 +37,7 @@ RULE = (
 )
 BOOL_KEYS_GENERIC = ["verbose", "mex", "cpp", "main", "with_header", "with_mem", "with_export", "with_import", "include_math", "avoid_stack"]
 BOOL_KEYS_EST = ["main", "mex", "with_header", "with_mem"]
+COMPILE_VARIANT_KEYS = ["main", "with_header", "with_mem", "avoid_stack", "verbose"]
 EXPORT_RE = re.compile(r"\bint (\w+)\(const casadi_real\*\* arg, casadi_real\*\* res, casadi_int\* iw, casadi_real\* w, int mem\)")
 EXPECTED = os.path.join(VERIF, "props", "c09_expected_names.json")
 
@@ -213,10 +214,26 @@ def _setup(tier):
         v, r = S["gen"][(sname, "defaults")]
         if r["ok"]:
             cjobs.append((sname, r["files"][0]))
+    # ... and the single-option variants whose C output is meant to be self-contained (a main driver, header, memory
+    # interface, stack avoidance, verbosity): they are accepted options, so their output must build as well
+    vjobs = []
+    for sname, info in S["sets"].items():
+        for k in COMPILE_VARIANT_KEYS:
+            if k not in info["keys"]:
+                continue
+            v = dict(info["defaults"])
+            v[k] = not v[k]
+            o = optname(v, info["defaults"])
+            if (sname, o) in S["gen"] and S["gen"][(sname, o)][1]["ok"]:
+                f = S["gen"][(sname, o)][1]["files"][0]
+                if os.path.exists(f):
+                    vjobs.append(((sname, o), f))
     with ThreadPoolExecutor(8) as ex:
         cres = list(ex.map(lambda j: do_compile(j[1]), cjobs))
+        vres = list(ex.map(lambda j: do_compile(j[1]), vjobs))
     for (sname, f), r in zip(cjobs, cres):
         S["compile"][sname] = r
+    S["compile_variants"] = {k: r for (k, f), r in zip(vjobs, vres)}
 
 
 def harvest_constants(f):
@@ -340,6 +357,15 @@ def make_cells(tier):
                     sname, None if c is None else c["rc"], "" if c is None else c["stderr"][-800:]))
 
         cells.append(Cell("compile/%s" % sname, st.just({"set": sname}), check_compile, lambda c: True, None, quick=1, thorough=1, shrink=False))
+
+    for (sname, o), c in sorted(S.get("compile_variants", {}).items()):
+        def check_compile_v(case, sname=sname, o=o, c=c):
+            if c["rc"] != 0 or c["stderr"].strip():
+                raise Violation("generated C for set %s with option %s does not compile cleanly with gcc -Wall -Werror: rc=%s\n%s" % (
+                    sname, o, c["rc"], c["stderr"][-800:]))
+
+        cells.append(Cell("compile/%s/%s" % (sname, o), st.just({"set": sname, "options": o}), check_compile_v, lambda c: True, None,
+                          quick=1, thorough=1, shrink=False))
 
     # ---- layout + differential execution per function
     for sname, info in S["sets"].items():
